@@ -54,6 +54,7 @@ def build_roots(kinds):
     for f, cl in (('lerp_unclamped_unnormalized', False), ('lerp_unclamped_precise_unnormalized', False), ('lerp_unnormalized', True), ('lerp_precise_unnormalized', True)):
         add('r_qu_%s' % f, 'pub fn r_qu_%s(a: %s, b: %s, f: f32) -> %s { Quaternion::%s(a, b, f) }' % (f, Q, Q, Q, f), kind='quatu', clamped=cl)
     add('r_qslerp_unclamped', 'pub fn r_qslerp_unclamped(a: %s, b: %s, f: f32) -> %s { Quaternion::slerp_unclamped(a, b, f) }' % (Q, Q, Q), kind='qslerp', clamped=False)
+    add('r_qslerp64_unclamped', 'pub fn r_qslerp64_unclamped(a: Quaternion<f64>, b: Quaternion<f64>, f: f64) -> Quaternion<f64> { Quaternion::slerp_unclamped(a, b, f) }', kind='qslerp', clamped=False, ty='f64')
     add('r_qslerp_trait_unclamped', 'pub fn r_qslerp_trait_unclamped(a: %s, b: %s, f: f32) -> %s { Slerp::slerp_unclamped(a, b, f) }' % (Q, Q, Q), kind='qslerp', clamped=False)
     add('r_qslerp_ref_unclamped', 'pub fn r_qslerp_ref_unclamped(a: &%s, b: &%s, f: f32) -> %s { Slerp::slerp_unclamped(a, b, f) }' % (Q, Q, Q), kind='qslerp', clamped=False)
     add('r_qslerp', 'pub fn r_qslerp(a: %s, b: %s, f: f32) -> %s { Quaternion::slerp(a, b, f) }' % (Q, Q, Q), kind='qslerp', clamped=True)
@@ -186,7 +187,7 @@ def run(ctx):
                         q = leaves(p.ret)
                         ctx.same('%s/path%d/unit' % (key, i), sum_(x * x for x in q), C(1), 'alg=: the normalised lerp has unit norm (computed: sum of squares = 1)', w)
             elif k == 'qslerp':
-                qslerp(ctx, key, rs, w, cl)
+                qslerp(ctx, key, rs, w, cl, m.get('ty', 'f32'))
             elif k == 'vslerp':
                 vslerp(ctx, key, rs, w, cl, m['K'])
             elif k == 'xf':
@@ -206,9 +207,9 @@ def run(ctx):
     ctx.floor('integer Lerp impls covered (10 types x 2 factor types x 4 forms x value/ref)', sum(1 for r in roots if meta[r.name]['kind'] == 'int'), 160)
 
 
-def qslerp(ctx, key, rs, w, cl):
+def qslerp(ctx, key, rs, w, cl, ty='f32'):
     A = [sym('a0.' + c) for c in QF]; Bv = [sym('a1.' + c) for c in QF]; f = sym('a2')
-    eps = named('eps:f32')
+    eps = named('eps:' + ty)
     d = dot(A, Bv)
     paths = [p for p in feasible_paths(rs)]
     seen = set()
